@@ -72,6 +72,21 @@ Theorem joiner_ready_has_pinset_partial init k es n m p :
 Proof. exact (joiner_ready_l init k es n m p). Qed.
 Print Assumptions joiner_ready_has_pinset_partial.
 
+(* for every cluster state (every history and schedule): a peer that reports itself ready has its own add entry within the
+   prefix of the log it has received - readiness is judged on its own latest configuration, not on the leader's *)
+Theorem joiner_not_ready_before_own_add_entry init cl p m :
+  memN p init = false -> ready init cl p m = true ->
+  exists ia, (ia < m_recv m)%nat /\ nth_error (mlog cl) ia = Some (EAdd p).
+Proof. exact (ready_needs_own_add_entry_l init cl p m). Qed.
+Print Assumptions joiner_not_ready_before_own_add_entry.
+
+(* so a joiner still lagging behind its (only) add entry is not ready, whatever it has queued or applied *)
+Theorem lagging_joiner_not_ready init cl p m ia :
+  memN p init = false -> nth_error (mlog cl) ia = Some (EAdd p) ->
+  (forall ib, nth_error (mlog cl) ib = Some (EAdd p) -> ib = ia) -> (m_recv m <= ia)%nat -> ready init cl p m = false.
+Proof. exact (lagging_joiner_not_ready_l init cl p m ia). Qed.
+Print Assumptions lagging_joiner_not_ready.
+
 (* S25: without that guard the statement is false: WaitForSync compares raft's AppliedIndex with LastIndex, and
    hashicorp/raft advances AppliedIndex when an entry is queued for the FSM: a joiner can be ready with an empty pinset *)
 Theorem joiner_ready_has_pinset_refuted :
